@@ -61,10 +61,12 @@ typedef struct {
 	/* callback */
 	int cbpolicy;			/* 0 none 1 buf 2 null 3 mix */
 	unsigned char **cbbuf;		/* buffer returned by the callback per esi (k entries) */
+	unsigned char **cbbase;		/* start of the heap block that holds it */
 	unsigned *cbcount;
 } S_t;
 static S_t S[MAXS];
 
+static unsigned g_align = 0;	/* start misalignment of application buffers (set by the 'align' line) */
 /* callback events of the current call */
 static unsigned ev_esi[70000], ev_size[70000]; static int nev;
 
@@ -77,9 +79,12 @@ static void *src_cb(void *ctx, UINT32 size, UINT32 esi)
 	int give = (s->cbpolicy == 1) || (s->cbpolicy == 3 && (esi % 2 == 0));
 	if (esi < s->k) s->cbcount[esi]++;
 	if (give && esi < s->k) {
-		unsigned char *b = malloc(size ? size : 1);
-		memset(b, 0xAA, size);
-		if (s->cbbuf[esi] == NULL) s->cbbuf[esi] = b;	/* second buffers for the same esi are leaked on purpose (reported by count) */
+		/* applications hand out slots of packet pools: the buffer starts at any alignment and ends at the end of its block */
+		unsigned a = (esi + g_align) & 7;
+		unsigned char *base = malloc((size ? size : 1) + a);
+		unsigned char *b = base + a;
+		memset(base, 0xAA, size + a);
+		if (s->cbbuf[esi] == NULL) { s->cbbuf[esi] = b; s->cbbase[esi] = base; }	/* second buffers for the same esi are leaked on purpose (reported by count) */
 		ret = b;
 	}
 	cur_sid = save;
@@ -88,7 +93,6 @@ static void *src_cb(void *ctx, UINT32 size, UINT32 esi)
 
 /* application symbol buffers: exactly `len` bytes whose END coincides with the end of the heap block (so that the
  * sanitizer sees any access past the symbol), starting `g_align` bytes into the block; the slack in front is a canary */
-static unsigned g_align = 0;
 #define NBASE 65536
 static struct { void *p, *base; unsigned a; } bases[NBASE]; static unsigned nbases;
 static unsigned char *abuf(unsigned len)
@@ -184,7 +188,7 @@ static void free_session_buffers(S_t *s)
 	if (s->enc_tab) { for (unsigned e = 0; e < s->n; e++) afree(s->enc_tab[e]); free(s->enc_tab); }
 	if (s->enc_src_copy) { for (unsigned e = 0; e < s->k; e++) free(s->enc_src_copy[e]); free(s->enc_src_copy); }
 	free(s->enc_slot_lib);
-	if (s->cbbuf) { for (unsigned e = 0; e < s->k; e++) free(s->cbbuf[e]); free(s->cbbuf); }
+	if (s->cbbuf) { for (unsigned e = 0; e < s->k; e++) free(s->cbbase[e]); free(s->cbbuf); free(s->cbbase); }
 	free(s->cbcount);
 	memset(s, 0, sizeof *s);
 }
@@ -280,7 +284,7 @@ int main(void)
 			printf("\n@ok st=%s\n", stname(st));
 			if (st == OF_STATUS_OK) {
 				s->configured = 1;
-				s->cbbuf = calloc(s->k + 1, sizeof(void *)); s->cbcount = calloc(s->k + 1, sizeof(unsigned));
+				s->cbbuf = calloc(s->k + 1, sizeof(void *)); s->cbbase = calloc(s->k + 1, sizeof(void *)); s->cbcount = calloc(s->k + 1, sizeof(unsigned));
 			}
 			goto next;
 		}
